@@ -39,4 +39,10 @@ def run(tier, workers=None):
         n = e1common.cross_history_tags(rep, "C08", obs)
         return {"distinct_tags_observed": n}
 
-    return e1common.run_configs("C08", tier, configs(tier), depth_of, workers=workers, seeds=seeds, assumptions=ASSUME, post=post)
+    faults = {
+        "histories": [[("put", "cal", "a.ics", "X")], [("put", "cal", "a.ics", "X"), ("put", "cal", "b.ics", "Z")]],
+        "ops": [("put", "cal", "a.ics", "X2"), ("put", "cal", "b.ics", "Z"), ("delete", "cal", "a.ics"), ("proppatch", "cal", "displayname", "d1")],
+    }
+    return e1common.run_configs("C08", tier, configs(tier), depth_of, workers=workers, seeds=seeds, assumptions=ASSUME + [
+        "fault phase: every single placement of an ENOSPC failure on a mutating file-system call of a write; a request that then fails must not change the tag",
+    ], post=post, faults=faults)
